@@ -166,7 +166,7 @@ ElemElement::startElement(StylesheetExecutionContext&       executionContext) co
 
         const XalanDOMString::size_type     indexOfNSSep = indexOf(elemName, XalanUnicode::charColon);
 
-        const bool  havePrefix = indexOfNSSep == len ? false : true;
+        bool    havePrefix = indexOfNSSep == len ? false : true;
 
         const GetCachedString   prefixGuard(executionContext);
 
@@ -188,7 +188,12 @@ ElemElement::startElement(StylesheetExecutionContext&       executionContext) co
 
                 if (m_namespaceAVT != 0)
                 {
+                    // The element is generated without the prefix...
                     elemName.erase(0, indexOfNSSep + 1);
+
+                    prefix.clear();
+
+                    havePrefix = false;
                 }
                 else
                 {
@@ -359,7 +364,7 @@ ElemElement::execute(StylesheetExecutionContext&        executionContext) const
 
         const XalanDOMString::size_type     indexOfNSSep = indexOf(elemName, XalanUnicode::charColon);
 
-        const bool  havePrefix = indexOfNSSep == len ? false : true;
+        bool    havePrefix = indexOfNSSep == len ? false : true;
 
         const GetCachedString   prefixGuard(executionContext);
 
@@ -390,7 +395,12 @@ ElemElement::execute(StylesheetExecutionContext&        executionContext) const
 
                     if (m_namespaceAVT != 0)
                     {
+                        // The element is generated without the prefix...
                         elemName.erase(0, indexOfNSSep + 1);
+
+                        prefix.clear();
+
+                        havePrefix = false;
                     }
                     else
                     {
